@@ -9,6 +9,9 @@ Pipeline (DESIGN 4/C14):
      with the clauses of the property as invariants and C [= A outside the one open cell (cell_sizes_vecs, one-node axis).
   2. Every (partition, query) state is exported with the layer-A answer and replayed on real
      RectPartition / RectGrid / IntervalProd objects and constructors under several concretisations.
+     Histories (PartHist): every behaviour of 3 steps + final sweep over Construct(4 routes x 2 limit sets; ONE shared RectGrid
+     object, caller-owned float64 arrays) / Query / MutateCallerArray / MutateReturned(10 attributes) is replayed; every query on
+     every object (both orders) must equal the history-free reference.
   3. Every replayed call and the calls of a seeded random driver (1-4 d, up to 8 random dyadic nodes per axis,
      random index expressions / points / requests) are recorded as events and validated by TLC (Trace_Part).
 """
@@ -52,6 +55,14 @@ def _val(clause):
 def signature(ev, conc, clause, k=0):
     """Family-level signature of a failed clause of one event (no literal numbers)."""
     kind = ev['kind']
+    if kind == 'phist':
+        mut = next(('%s/%s' % (s['a'], s['attr']) for s in ev['steps'] if s['a'] in ('MC', 'MR')), 'none')
+        routes = sorted(set(o['route'] for o in ev['objs']))
+        st = ev['steps'][k - 1] if 1 <= k <= len(ev['steps']) else {'a': '-', 'err': ''}
+        sig = {'api': 'history', 'mut': mut, 'clause': 'value' if clause in L.QUERIES else clause}
+        if mut == 'none':       # pure sharing / ordering effects: say which construction routes and which query
+            sig.update(routes='+'.join(routes), query=clause if clause in L.QUERIES else st['a'])
+        return sig
     part = ev.get('part', [])
     nd = '1' if len(part) <= 1 else 'nd'
     if kind == 'derived':
@@ -201,6 +212,39 @@ def replay_chunk(args):
                 if cl:
                     ev['_expected'] = exp
                 res.append((ev, conc, cl, nontrivial(ev, exp), ln))
+    return res
+
+
+def hist_clauses(steps, hist):
+    out = []
+    for j, (s, h) in enumerate(zip(steps, hist), start=1):
+        if s['err']:
+            out.append(('raised', j))
+        elif s['a'] == 'Q' and not L.ans_same(s['q'], h['exp'], s['obs']):
+            out.append((s['q'], j))
+        elif s['a'] == 'SWEEP':
+            for q in L.QUERIES:
+                if any(not (L.ans_same(q, e[q], o1[q]) and L.ans_same(q, e[q], o2[q]))
+                       for o1, o2, e in zip(s['obs_first'], s['obs'], h['exp'])):
+                    out.append((q, j))
+    return out
+
+
+def hist_chunk(args):
+    path, lo, hi = args
+    res = []
+    with open(path) as f:
+        for ln, line in enumerate(f):
+            if ln < lo or ln >= hi or not line.strip():
+                continue
+            c = json.loads(line)
+            steps = L.run_part_history(c['sc'], c['objs'], c['hist'])
+            msgs = [st.pop('errmsg') for st in steps if 'errmsg' in st]
+            ev = {'kind': 'phist', 'sc': c['sc'], 'objs': c['objs'], 'steps': steps, 'err': '', '_errmsg': '; '.join(msgs)}
+            cl = hist_clauses(steps, c['hist'])
+            if cl:
+                ev['_expected'] = [h['exp'] for h in c['hist']]
+            res.append((ev, {'how': 'history'}, cl, True, ln))
     return res
 
 
@@ -435,7 +479,10 @@ def run(ctx):
         'the cell-side clause side*count = extent is evaluated on the requested cell side of the constructor; the read-back cell_sides '
         'is compared for axes with >= 2 nodes and for centred one-node axes',
         'floating index on a degenerate (min = max) axis is 0/0 and not compared',
-        'inconsistent constructor requests (fewer than 3 parameters, contradicting values) are outside the statement and not explored']
+        'inconsistent constructor requests (fewer than 3 parameters, contradicting values) are outside the statement and not explored',
+        'histories: a caller that overwrites an array RETURNED by a partition must leave the partition (and its siblings on the same grid) '
+        'unaffected - either the array is a copy or it is read-only (a refused write counts as unaffected); in histories the size of the '
+        'single cell of a one-node axis is not compared (open finding KF-C14-3)']
     import time
     T = [time.time()]
     phase = {}
@@ -449,13 +496,17 @@ def run(ctx):
     jobs = [('model-' + m, 'MC_Part.tla', 'MC_Part_check.cfg',
              {'PART_MODE': m, 'PART_BIG': big, 'OUT_FILE': os.path.join(work, 'exp_%s.ndjson' % m)}) for m in modes]
     jobs.append(('nonvacuity', 'MC_Part.tla', 'MC_Part_bogus.cfg', {'PART_MODE': 'axis', 'PART_BIG': '0', 'OUT_FILE': os.devnull}))
+    # histories on shared grid objects / caller-owned arrays (PartHist)
+    hist_path = os.path.join(work, 'exp_hist.ndjson')
+    jobs.append(('model-hist', 'MC_PartHist.tla', 'MC_PartHist_check.cfg', {'PH_BIG': big, 'OUT_FILE': hist_path}))
+    jobs.append(('nonvacuity-hist', 'MC_PartHist.tla', 'MC_PartHist_bogus.cfg', {'PH_BIG': '0', 'OUT_FILE': os.devnull}))
 
     def go(j):
         return j[0], run_tlc(j[1], j[2], work, env=j[3], workers=1, timeout=3000)
-    with ThreadPoolExecutor(max_workers=4) as ex:
+    with ThreadPoolExecutor(max_workers=6) as ex:
         results = list(ex.map(go, jobs))
     for name, res in results:
-        if name == 'nonvacuity':
+        if name.startswith('nonvacuity'):
             ctx.add_tlc(name, res, expect='any')
             if res.status != 'counterexample':
                 raise MachineryError('self-test: the deliberately false invariant was not refuted')
@@ -479,12 +530,21 @@ def run(ctx):
             tasks.append((path, lo, lo + step, ctx.seed, not quick))
     nrand, per = (4000, 500) if quick else (120000, 4000)
     rtasks = [(None, 0, 0)] + [(ctx.seed * 7919 + 14 + 1000003 * j, per, (j + 1) * 100000) for j in range(nrand // per)]
+    with open(hist_path) as f:
+        nh = sum(1 for _ in f)
+    if nh == 0:
+        raise MachineryError('empty export of PartHist')
+    nlines['hist'] = nh
+    htasks = [(hist_path, lo, lo + 300) for lo in range(0, nh, 300)]
     with mp.get_context('fork').Pool(12) as pool:
         ares = pool.map_async(replay_chunk, tasks, chunksize=1)
+        hres = pool.map_async(hist_chunk, htasks, chunksize=1)
         rres = pool.map_async(random_task, rtasks, chunksize=1)       # ---- 3. random driver (same pool) ----
         chunks = ares.get()
+        hchunks = hres.get()
         rchunks = rres.get()
     records = [r for ch in chunks for r in ch]
+    records += [r for ch in hchunks for r in ch]
     records += combine_uniform(os.path.join(work, 'exp_uniform.ndjson'), ctx.seed, 150 if quick else 1500)
     ctx.extra['exported_states'] = nlines
     nreplayed = len(records)
@@ -495,7 +555,10 @@ def run(ctx):
     for i, (ev, conc, cl, nontriv, ln) in enumerate(records):
         ev['id'] = i
         ev.setdefault('tid', 0)
-        ctx.count([clean({k: v for k, v in ev.items() if k not in ('obs', 'err', 'id', 'tid')}), conc], nontriv)
+        if ev['kind'] == 'phist':
+            ctx.count([ev['sc'], ev['objs'], [(st['a'], st['route'], st['lim'], st['i'], st['q'], st['attr']) for st in ev['steps']]], nontriv)
+        else:
+            ctx.count([clean({k: v for k, v in ev.items() if k not in ('obs', 'err', 'id', 'tid')}), conc], nontriv)
         if cl:
             seen = set()
             for clause, k in cl:
@@ -521,17 +584,27 @@ def run(ctx):
     lap('replay_and_random_driver')
 
     # ---- 4. TLC validates every recorded event ----
-    chunk = 6000
     files = []
-    for ci in range(0, len(records), chunk):
-        p = os.path.join(work, 'trace_%d.ndjson' % (ci // chunk))
+    cur, w = [], 0
+    groups = []
+    for rec in records:
+        wt = 8 if rec[0]['kind'] == 'phist' else 1          # history events carry two full sweeps
+        if cur and (w + wt > 6000 or len(cur) >= 6000):
+            groups.append(cur)
+            cur, w = [], 0
+        cur.append(rec)
+        w += wt
+    if cur:
+        groups.append(cur)
+    for gi, grp in enumerate(groups):
+        p = os.path.join(work, 'trace_%d.ndjson' % gi)
         with open(p, 'w') as f:
-            for ev, conc, cl, nontriv, ln in records[ci:ci + chunk]:
+            for ev, conc, cl, nontriv, ln in grp:
                 f.write(json.dumps(clean(ev)) + '\n')
         files.append(p)
 
     def val(p):
-        return p, run_tlc('Trace_Part.tla', 'Trace_Part.cfg', work, env={'TRACE_FILE': p}, workers=1, timeout=3000)
+        return p, run_tlc('Trace_Part.tla', 'Trace_Part.cfg', work, env={'TRACE_FILE': p}, workers=1, timeout=3000, heap='3g')
     with ThreadPoolExecutor(max_workers=12) as ex:
         vres = list(ex.map(val, files))
     nfail = 0
